@@ -299,6 +299,13 @@ func (fc *FCtx) keyFnApply(key string, args []Val) Val {
 			fc.U.Fun(inv, []*Sort{bz}, s)
 			cs = append(cs, fmt.Sprintf("(= (%s %s) x%d)", inv, appl, i))
 		}
+		if len(bs) > 0 {
+			var invs []string
+			for i := range sorts {
+				invs = append(invs, fmt.Sprintf("(%s_inv%d k)", name, i))
+			}
+			fc.U.Axiom("key function "+shortPkg(key)+" (every key with its tag is in its range)", fmt.Sprintf("(forall ((k Bz)) (! (=> (= (key_tag k) %d) (= (%s %s) k)) :pattern ((key_tag k))))", fc.keyTag(key), name, strings.Join(invs, " ")))
+		}
 		if len(bs) == 0 {
 			fc.U.Axiom("key function "+shortPkg(key)+" (distinct tag)", and(cs...))
 		} else {
